@@ -79,16 +79,16 @@ def cases(tier, seed):
         for sub in itertools.combinations(range(5), r):
             for perm in itertools.permutations(sub):
                 yield {'kind': 'rls', 'mode': 'exhaustive', 'n': 6, 'idx': list(perm), 'seed': seed, 'i': 0}
-    n = {'quick': 500, 'thorough': 15000}[tier]
+    n = {'quick': 500, 'thorough': 90000}[tier]
     for i in range(n):
         yield {'kind': 'rls', 'mode': 'random', 'seed': seed, 'i': i}
-    nb = {'quick': 120, 'thorough': 2500}[tier]
+    nb = {'quick': 120, 'thorough': 12000}[tier]
     for i in range(nb):
         yield {'kind': 'bc', 'seed': seed, 'i': i}
-    ni = {'quick': 40, 'thorough': 800}[tier]
+    ni = {'quick': 40, 'thorough': 4000}[tier]
     for i in range(ni):
         yield {'kind': 'ic01', 'seed': seed, 'i': i}
-    nm = {'quick': 16, 'thorough': 300}[tier]
+    nm = {'quick': 16, 'thorough': 1500}[tier]
     for i in range(nm):
         yield {'kind': 'mpbc', 'seed': seed, 'i': i}
 
